@@ -66,6 +66,9 @@ def run(tier):
     rep.coverage["acceptor_mismatches_total"] = res["nviol"]
     if not rep.unknown_violations():
         selftest(recs, wd)
+    # specification growth hosted here (production resource manager: permits, rate buckets, shutdown): conformance, informational (MODEL-DRIFT, never a VIOLATION)
+    import growth_resource
+    growth_resource.run(rep, wd, big)
     return rep.finish(
         rule="concurrent real requests on the three pending tables (/rr/ send_request, DHT send_request, engine retrieve) in virtual time; "
              "an adversary injects reply frames into the unmodified receive loop under arbitrary authenticated-sender ids (right, wrong "
